@@ -884,3 +884,121 @@ def mkdictlist(j, x, z):
     if j == 0:
         return [x, z]
     return [z, x]
+
+
+# --------------------------------------------------------------------------- C08: hostile values
+
+class StrSub(str):
+    pass
+
+
+class IntSub(int):
+    pass
+
+
+class ListSub(list):
+    pass
+
+
+class DictSub(dict):
+    pass
+
+
+def _a_function():
+    return None
+
+
+ZOO_HOSTILE = (
+    Decimal("1.5"), Fraction(1, 3), (1, 2), (), {1, 2}, frozenset(), bytearray(b"ab"),
+    StrSub("ab"), IntSub(3), ListSub([1]), DictSub({"a": 1}),
+    UUID("6ba7b810-9dad-11d1-80b4-00c04fd430c8"), UUID("6fa459ea-ee8a-3ca4-894e-db77e160355e"),
+    UUID("886313e1-3b8a-5372-9b90-0c9aee199e5d"), UUID(int=0), UUIDS4[0],
+    {(1, 2): 0}, {None: 1}, {1: "x", "1": "y"}, Opaque(), Opaque, _a_function,
+    float("inf"), float("-inf"), float("nan"), 10 ** 400, -(10 ** 400), 1j, range(3),
+    DATETIMES[0], DATES[0], b"\xff", "", [], {}, [[]], None, True, 0, -0.0,
+)
+
+
+ZOO_HOSTILE_Q = (Decimal("1.5"), (1, 2), {1, 2}, bytearray(b"ab"), StrSub("ab"), IntSub(3), ListSub([1]),
+                 DictSub({"a": 1}), UUID("6ba7b810-9dad-11d1-80b4-00c04fd430c8"), UUID(int=0), {(1, 2): 0},
+                 Opaque(), float("inf"), float("nan"), 10 ** 400)
+
+
+def _count_nodes(val):
+    n = 1
+    if isinstance(val, list):
+        for x in val:
+            n += _count_nodes(x)
+    elif isinstance(val, dict):
+        for k in val:
+            n += _count_nodes(val[k])
+    return n
+
+
+def inject(val, i, z):
+    """Copy of the (concrete-shaped) container tree `val` whose i-th node in pre-order is replaced
+    by z; i == 0 replaces the root.  Abandons the path when i is not a node index."""
+    out, left = _inject(val, i, z)
+    if left >= 0:
+        raise IgnoreAttempt("no such position")
+    return out
+
+
+def _inject(val, i, z):
+    if i == 0:
+        return z, -1
+    i = i - 1
+    if isinstance(val, list):
+        out = []
+        done = False
+        for x in val:
+            if done:
+                out.append(x)
+            else:
+                y, i = _inject(x, i, z)
+                out.append(y)
+                if i < 0:
+                    done = True
+        return out, (-1 if done else i)
+    if isinstance(val, dict):
+        out = {}
+        done = False
+        for k in val:
+            if done:
+                out[k] = val[k]
+            else:
+                y, i = _inject(val[k], i, z)
+                out[k] = y
+                if i < 0:
+                    done = True
+        return out, (-1 if done else i)
+    return val, i
+
+
+def total_problem(S, val):
+    """'' when validation of val is total in the sense of C08."""
+    res = validate(S, val)
+    errs = res.get_errors()
+    for e in errs:
+        msg = e.format(_FMT)
+        if not isinstance(msg, str) or len(msg) == 0:
+            return "empty message for " + type(e).__name__
+    lines = format_result(res)
+    if len(errs) == 0:
+        if lines != []:
+            return "format_result not empty for a clean result"
+    elif len(lines) != len(errs) + 1:
+        return "format_result line count"
+    try:
+        r = validate_or_fail(S, val)
+    except ValidationException as ex:
+        if len(errs) == 0:
+            return "validate_or_fail raised without errors"
+        if str(ex).count("\n - ") != len(errs):
+            return "validate_or_fail message does not carry one line per error"
+        return ""
+    if len(errs) != 0:
+        return "validate_or_fail returned although there are errors"
+    if r is not True:
+        return "validate_or_fail did not return True"
+    return ""
